@@ -67,9 +67,12 @@ theorem bitsBE_intOfBits (l : List Bool) : bitsBE l.length (intOfBits l) = l := 
   | nil => simp [bitsBE]
   | append_singleton l b ih =>
     rw [intOfBits_append_singleton, List.length_append, List.length_singleton, bitsBE_succ]
-    have h1 : (2 * intOfBits l + b.toNat) / 2 = intOfBits l := by cases b <;> simp <;> omega
+    have h1 : (2 * intOfBits l + b.toNat) / 2 = intOfBits l := by
+      cases b
+      · simp
+      · simp; omega
     have h2 : (2 * intOfBits l + b.toNat).testBit 0 = b := by
-      rw [Nat.testBit_zero]; cases b <;> simp <;> omega
+      rw [Nat.testBit_zero]; cases b <;> simp
     rw [h1, h2, ih]
 
 /-- on strings of one length `int(s, 2)` is injective -/
